@@ -360,7 +360,7 @@ def build(rep, tier="quick", seed=0, known=None):
     regex_obligations(rep)
     LIT.tokenisation_obligations(rep)
     LIT.independence_obligations(rep, Sources())
-    run_contracts(LIT.str_contracts() + LIT.bytes_contracts(), rep, known=known)
+    run_contracts(LIT.str_contracts() + LIT.bytes_contracts() + LIT.numeral_contracts(tier), rep, known=known)
     allf = []
     allf += escape_table(rep)
     for part in (decoding(rep, tier, seed, known), numbers(rep, tier, seed), round_trip(rep, tier, seed)):
